@@ -260,6 +260,15 @@ class _Master:
     pass
 
 
+class _Trace(list):
+    """The event log; records arriving after the scenario's end (wrap-up, task cancellation) are dropped."""
+    frozen = False
+
+    def append(self, x):
+        if not self.frozen:
+            super().append(x)
+
+
 def run(sc: dict) -> list[dict]:
     """Run one scenario {"world": ..., "ops": [...]} on the real code; return the trace."""
     from vf import vloop
@@ -277,7 +286,7 @@ def run(sc: dict) -> list[dict]:
     world["_text2id"] = {}
     for i, t in enumerate(texts):
         world["_text2id"].setdefault(t, i + 1)
-    trace: list[dict] = []
+    trace = _Trace()
     gens: dict[int, tuple] = {}  # id(obj) -> (obj, gen)
 
     def gen_of(inst):
@@ -287,7 +296,7 @@ def run(sc: dict) -> list[dict]:
         return e[1]
 
     fos = FakeOS(world, trace, gen_of)
-    trace.append({"k": "world", "good": list(world.get("good", [])), "opt_host": world.get("opt_host", ""),
+    trace.append({"k": "world", "good": list(world.get("good", [])), "goods": list(world.get("goods", [])), "opt_host": world.get("opt_host", ""),
                   "opt_port": world.get("opt_port", 0), "root": bool(world.get("root")), "nspecs": len(specs)})
 
     m = _Master()
@@ -433,7 +442,12 @@ def run(sc: dict) -> list[dict]:
                 trace.append({"k": "op", "op": "setup"})
                 bg.append(asyncio.ensure_future(ps.setup_servers()))
                 trace.append({"k": "ret", "err": ""})
-            elif kind == "release":
+            elif kind in ("release", "release_any"):
+                if kind == "release_any":
+                    g = min(fos.gates, default=None)
+                    if g is None:
+                        continue
+                    op = ["release", fos.spec_of(_obj(gens, g))]
                 g = next((g for g in sorted(fos.gates) if gens and fos.spec_of(_obj(gens, g)) == op[1]), None)
                 if g is None:
                     break  # not enabled on the real object
@@ -458,10 +472,12 @@ def run(sc: dict) -> list[dict]:
                 trace.append({"k": "ret", "err": err, "gen": gen_of(state["alone"]) if not err else 0})
                 if err:
                     break
-            elif kind in ("istart", "istop"):
+            elif kind in ("istart", "istop", "itoggle"):
                 inst = state["alone"]
-                if inst is None:
-                    break
+                if kind == "itoggle" and inst is not None:
+                    kind = "istop" if inst.is_running else "istart"
+                if inst is None or bool(inst.is_running) != (kind == "istop"):
+                    break  # outside the domain: start of a running / stop of a stopped instance
                 trace.append({"k": "op", "op": kind, "gen": gen_of(inst)})
                 err = ""
                 try:
@@ -477,19 +493,21 @@ def run(sc: dict) -> list[dict]:
                 trace.append({"k": "stalled"})
                 break
             snapshot()
+        trace.append({"k": "end"})
         # wrap-up: let blocked starts finish so that no task is left pending (not part of the trace)
-        n = len(trace)
-        for ev in list(fos.gates.values()):
-            ev.set()
-        try:
-            await vloop.settle()
-        except vloop.Stalled:
-            pass
+        trace.frozen = True
+        for _i in range(50):
+            if not fos.gates:
+                break
+            for ev in list(fos.gates.values()):
+                ev.set()
+            try:
+                await vloop.settle()
+            except vloop.Stalled:
+                break
         for t in bg:
             if not t.done():
                 t.cancel()
-        del trace[n:]
-        trace.append({"k": "end"})
 
     old = (asyncio.start_server, mitmproxy_rs.udp.start_udp_server, mitmproxy_rs.udp.UdpServer, mode_servers.get_free_port)
     asyncio.start_server = fos.start_server
@@ -503,7 +521,7 @@ def run(sc: dict) -> list[dict]:
          mode_servers.get_free_port) = old
         mctx.master, mctx.options = saved_ctx
         logging.disable(logging.NOTSET)
-    return trace
+    return list(trace)
 
 
 def _obj(gens, g):
